@@ -249,6 +249,9 @@ LEVEL_TEXT = {
 for _p, _t in LEVEL_TEXT.items():
     if _p in PROPS: PROPS[_p]["level_text"] = _t
 
+PCTOR = [U(["contracts.problem_spaces"], f"{t}.__init__", timeout_ms=20000) for t in (DM, MJ, HX, FO)]
+_extend("C14", PCTOR); _extend("C15", PCTOR); _extend("C20", PCTOR); _extend("C16", PCTOR)
+
 HOOK_COMMITS = []
 NOT_APPLICABLE = {
     "C11": "crash atomicity and writer-thread interleavings live inside Orbax's commit protocol, which is not code of this repository; contracts on mdpax's calls can only assume atomic commit, not decide it (DESIGN.md section 6 C11). The contract-shaped fragments (step label, no mutation of a state handed to an asynchronous save, latest-step selection) are discharged under C09/C10/C12.",
